@@ -113,18 +113,21 @@ fn check_program(case: &Value, prog: &Program, shape: Shape, rng: &mut Rng, res:
             let ti = decl_toks[l].iter().find(|(id, _)| *id == d).unwrap().1;
             sites.push((lib_file(l), lib_decl_range(LIBS[l].1, ti).0));
         }
-        // the edits expected in the library modules: the declaration and its uses in the declaring module, nothing elsewhere
+        // the edits expected in the library modules: the declaration and its uses in the library, nothing else
         let mut exp_libs: Vec<Vec<(usize, usize, String)>> = vec![vec![]; NLIB];
         if let Some(l) = dlib {
             let ti = decl_toks[l].iter().find(|(id, _)| *id == d).unwrap().1;
             let (s, e) = lib_decl_range(LIBS[l].1, ti);
             exp_libs[l].push((s, e, fresh.to_string()));
-            for (id, off) in programs::lib_uses_of(l) {
-                if id == d {
-                    exp_libs[l].push((off, off + old.len(), fresh.to_string()));
+            // ... and its uses in either library module (sub/m2 uses the record R of m2)
+            for l2 in 0..NLIB {
+                for (id, off) in programs::lib_uses_of(l2) {
+                    if id == d {
+                        exp_libs[l2].push((off, off + old.len(), fresh.to_string()));
+                    }
                 }
+                exp_libs[l2].sort();
             }
-            exp_libs[l].sort();
         }
         for (qfile, qoff) in sites {
         let feat = |what: &str| { let mut f = feat(what); if qfile != M1 { f["site"] = json!("libdecl"); } f };
@@ -173,7 +176,7 @@ fn check_program(case: &Value, prog: &Program, shape: Shape, rng: &mut Rng, res:
             f["extra_tokens"] = json!(got_toks.iter().filter(|t| !toks.contains(t)).count());
             // library side: "ok" / "declaring module" (its declaration or uses differ) / "other module" (a module that does not
             // declare the symbol was edited)
-            f["lib_edits"] = json!(if lib_edits == exp_libs { "ok" } else if (0..NLIB).any(|l| Some(l) != dlib && !lib_edits[l].is_empty()) { "other module" } else { "declaring module" });
+            f["lib_edits"] = json!(if lib_edits == exp_libs { "ok" } else if (0..NLIB).any(|l| Some(l) != dlib && lib_edits[l] != exp_libs[l]) { "other module" } else { "declaring module" });
             res.push(json!({"kind": "mismatch", "prop": "C07", "features": f,
                 "detail": detail(json!({"expected_tokens": toks, "got_tokens": got_toks, "lib_edits": lib_edits, "expected_lib_edits": exp_libs, "bad_edit": bad_edit,
                                         "missing": toks.iter().filter(|t| !got_toks.contains(t)).collect::<Vec<_>>(), "extra": got_toks.iter().filter(|t| !toks.contains(t)).collect::<Vec<_>>()}))}));
